@@ -1,7 +1,7 @@
 // @unit c16_head property=C16 attach=typify-impl/src/lib.rs
-// @h c16_head_known_key tier=both bounded=batch-of-1-definition,1-known-reference-key,literal-next_id
-// @h c16_head_fresh_key tier=both bounded=batch-of-1-definition,literal-next_id
-// @h c16_head_empty_batch tier=both bounded=literal-next_id
+// @h c16_head_known_key tier=off bounded=batch-of-1-definition,1-known-reference-key,literal-next_id
+// @h c16_head_fresh_key tier=off bounded=batch-of-1-definition,literal-next_id
+// @h c16_head_empty_batch tier=off bounded=literal-next_id
 // @canary canary_c16_head
 //
 // C16 -- identifier pre-assignment for a batch of references (the first statements of
